@@ -11,7 +11,8 @@ VARIABLES sc, l, t0, x
 vars == <<sc, l, t0, x>>
 R == Scens[sc].reset
 Kind == R[1]
-P == IF Kind = "noise" THEN NoisePeriod(R[2], R[3]) ELSE Period(Kind, R[2])
+Sweep == Kind = "sqsweep"       \* channel 1 while the sweep unit changes its frequency: events [cycle, value, frequency now]
+P == IF Kind = "noise" THEN NoisePeriod(R[2], R[3]) ELSE IF Sweep THEN 4 ELSE Period(Kind, R[2])
 Narrow == Kind = "noise" /\ R[4] = 1
 V0 == R[5]
 Evs == Scens[sc].ev
@@ -22,11 +23,17 @@ Init == /\ sc \in 1..Len(Scens) /\ l = 1
         /\ IF Len(Evs) = 0 THEN t0 = 0
            ELSE t0 \in {4 * Evs[1][1] - k : k \in 0..3}          \* the first step fell inside the cycle of the first change
         \* no step may have been expected before the first observed change, and a silent run must be shorter than one period
-        /\ (Len(Evs) = 0 => 4 * R[6] < P + 16)
+        /\ (Len(Evs) = 0 /\ ~Sweep => 4 * R[6] < P + 16)
 
 Next == /\ l <= Len(Evs) /\ l' = l + 1 /\ UNCHANGED <<sc, t0>>
         /\ LET c == Evs[l][1]  v == Evs[l][2] IN
-           IF Kind = "noise"
+           IF Sweep
+           THEN \* the timer is reloaded at every step with the frequency then in effect: the interval after a step is
+                \* 4*(2048-f) clocks = 2048-f machine cycles for the f seen right after that step
+                /\ (l > 1 => c - Evs[l - 1][1] = 2048 - Evs[l - 1][3])
+                /\ v = ((IF l = 1 THEN V0 ELSE Evs[l - 1][2]) + 1) % 8
+                /\ UNCHANGED x
+           ELSE IF Kind = "noise"
            THEN /\ Steps(c, t0, P) = l /\ Steps(c - 1, t0, P) = l - 1       \* exactly one LFSR clock per period
                 /\ x' = Proj(LfsrStep(x, Narrow))
                 /\ Proj(v) = x'
@@ -36,7 +43,8 @@ Next == /\ l <= Len(Evs) /\ l' = l + 1 /\ UNCHANGED <<sc, t0>>
                 /\ UNCHANGED x
 \* after the last change nothing more was due until the end of the observation
 TailOK == (l = Len(Evs) + 1 /\ Len(Evs) > 0) =>
-           IF Kind = "noise" THEN Steps(R[6], t0, P) = Len(Evs)
+           IF Sweep THEN R[6] - Evs[Len(Evs)][1] < 2048 - Evs[Len(Evs)][3] + 1
+           ELSE IF Kind = "noise" THEN Steps(R[6], t0, P) = Len(Evs)
            ELSE Evs[Len(Evs)][2] = (V0 + Steps(R[6], t0, P)) % Modulus(Kind)
 Spec == Init /\ [][Next]_vars
 Done == (l = Len(Evs) + 1 /\ TailOK) => PrintT(<<"ACCEPT", Scens[sc].id>>)
